@@ -8,6 +8,7 @@ Ops (every heap op names its register; `binary` has register 0 only):
 
     ins r k v | del r | peek r | clear r | size r | empty r | hask r k | hasv r v | dump r
     merge d s            (mergeable heaps: heap[d].Merge(heap[s]); both registers stay in use)
+    mergeother d         (mergeable heaps: heap[d].Merge(H) for an H of another type; nothing happens)
     maxdeg lo hi         (fibonacci: break points of `maxDegree` on [lo, hi])
 -/
 namespace AlgoVerif.C04.Driver
@@ -113,6 +114,11 @@ def runMergeable (I : Impl Int Int) (dump : I.σ → String) (fib : Bool) (ops :
       match fib, parseNat? lo, parseNat? hi with
       | true, some lo, some hi => out := out.push (maxdegBreaks lo hi)
       | _, _, _ => out := out.push "bad-op"
+    | ["mergeother", d] =>
+      -- the operand is not a heap of this implementation type: `Impl.mstep` leaves every register as it is
+      match parseNat? d with
+      | some _ => out := out.push "ok"
+      | none => out := out.push "bad-op"
     | ["merge", d, s] =>
       match parseNat? d, parseNat? s with
       | some d, some s =>
